@@ -10,6 +10,7 @@
 package main
 
 import (
+	"bytes"
 	"encoding/json"
 	"fmt"
 	"math/big"
@@ -28,8 +29,10 @@ import (
 	"github.com/ethereum/go-ethereum/core/types"
 	"github.com/ethereum/go-ethereum/crypto"
 	"github.com/ethereum/go-ethereum/ethdb"
+	"github.com/ethereum/go-ethereum/ethdb/memorydb"
 	"github.com/ethereum/go-ethereum/log"
 	"github.com/ethereum/go-ethereum/params"
+	"github.com/ethereum/go-ethereum/rlp"
 	"github.com/ethereum/go-ethereum/triedb/pathdb"
 
 	"verif/lib/crashrun"
@@ -39,6 +42,21 @@ import (
 )
 
 func main() {
+	if o := os.Getenv("C39_WALK"); o != "" {
+		// diagnostics: persistent state id / disk trie root / head block after every key-value operation
+		last := ""
+		kvrec.Walk(o, func(seq uint64, db *memorydb.Database) bool {
+			blob, _ := db.Get([]byte("A"))
+			hb, _ := db.Get([]byte("LastBlock"))
+			cur := fmt.Sprintf("psid=%d root=%x head=%x", rawdb.ReadPersistentStateID(db), crypto.Keccak256(blob)[:4], hb[:min(4, len(hb))])
+			if cur != last {
+				fmt.Printf("kv %d: %s\n", seq, cur)
+				last = cur
+			}
+			return true
+		})
+		return
+	}
 	if d := os.Getenv("C39_REPLAY"); d != "" {
 		lvl := log.LevelInfo
 		if os.Getenv("C39_DEBUG") != "" {
@@ -73,6 +91,7 @@ type Plan struct {
 	Archive  bool   `json:"archive"`
 	Snapshot bool   `json:"snapshot"`
 	MaxDiff  int    `json:"max_diff"`
+	Fat      int    `json:"fat,omitempty"` // extra transfers to fresh accounts per block (large trie commits)
 	Steps    []Step `json:"steps"`
 }
 
@@ -89,6 +108,13 @@ func genPlan(r *vrt.Run, hi int) Plan {
 	default:
 		p.Scheme = rawdb.PathScheme
 		p.MaxDiff = []int{2, 4, 8, 128}[rng.Intn(4)]
+	}
+	if hi%4 == 1 {
+		// "fat" family: many fresh accounts per block, so that a hash-scheme trie commit spans
+		// several write batches (ethdb.IdealBatchSize) and a crash can fall between them
+		p.Scheme, p.Snapshot, p.MaxDiff, p.Archive = rawdb.HashScheme, false, 0, rng.Intn(3) == 0
+		p.Fat = 80 + rng.Intn(60)
+		p.Len = 10 + rng.Intn(12)
 	}
 	if rng.Intn(2) == 0 && p.Len > 6 {
 		p.SideAt = 1 + rng.Intn(p.Len-4)
@@ -109,13 +135,9 @@ func genPlan(r *vrt.Run, hi int) Plan {
 		case k < 8 && at > 3:
 			p.Steps = append(p.Steps, Step{Kind: "freeze", A: 1 + rng.Intn(at-1)})
 		default:
-			// SetHead is generated for the hash scheme only. With the path scheme SetHead
-			// goes through pathdb.Recover, and crash states taken in such scenarios produced
-			// start-up failures ("gap between state and state history") that could not be
-			// triaged to a root cause in the time available; they are described in DESIGN.md
-			// 10.7 as an open observation (reproduce with C39_PATH_SETHEAD=1) and are neither
-			// claimed as held nor listed as known findings.
-			if at > 2 && (p.Scheme != rawdb.PathScheme || os.Getenv("C39_PATH_SETHEAD") != "") {
+			// (C39_NO_PATH_SETHEAD=1 restricts SetHead to hash-scheme scenarios, for comparison
+			// with earlier evidence)
+			if at > 2 && (p.Scheme != rawdb.PathScheme || os.Getenv("C39_NO_PATH_SETHEAD") == "") {
 				t := rng.Intn(at)
 				p.Steps = append(p.Steps, Step{Kind: "sethead", A: t})
 				at = t
@@ -164,6 +186,12 @@ func genModel(p *Plan) *Model {
 				tx, _ := types.SignTx(types.NewTransaction(b.TxNonce(addr), probe, big.NewInt(int64(1+rng.Intn(1000))+salt), 21000, b.BaseFee(), nil), signer, key)
 				b.AddTx(tx)
 			}
+			for k := 0; k < p.Fat; k++ {
+				var to common.Address
+				rng.Read(to[:])
+				tx, _ := types.SignTx(types.NewTransaction(b.TxNonce(addr), to, big.NewInt(int64(1+rng.Intn(1000))), 21000, b.BaseFee(), nil), signer, key)
+				b.AddTx(tx)
+			}
 		}
 	}
 	gdb, blocks, _ := core.GenerateChainWithGenesis(gs, engine, p.Len, mk(0))
@@ -183,7 +211,9 @@ func genModel(p *Plan) *Model {
 	m.Bal[genesisBlock.Hash()] = new(big.Int)
 	for _, b := range m.Canon[1:] {
 		for _, tx := range b.Transactions() {
-			bal = new(big.Int).Add(bal, tx.Value())
+			if *tx.To() == probe {
+				bal = new(big.Int).Add(bal, tx.Value())
+			}
 		}
 		m.Bal[b.Hash()] = bal
 	}
@@ -191,7 +221,9 @@ func genModel(p *Plan) *Model {
 		sb := new(big.Int).Set(m.Bal[m.Canon[p.SideAt].Hash()])
 		for _, b := range m.Side {
 			for _, tx := range b.Transactions() {
-				sb = new(big.Int).Add(sb, tx.Value())
+				if *tx.To() == probe {
+					sb = new(big.Int).Add(sb, tx.Value())
+				}
 			}
 			m.Bal[b.Hash()] = sb
 		}
@@ -225,6 +257,41 @@ func openChain(kv ethdb.KeyValueStore, root string, p *Plan, m *Model) (ethdb.Da
 }
 
 type freezer interface{ Freeze() error }
+
+// persistedBound returns the block number of the last persisted state of a crash state, the
+// bound of the property's clause "no loss of blocks below the last persisted state". Hash
+// scheme: no bound beyond the acknowledged head (tries committed at a clean stop stay in the
+// key-value store). Path scheme: the layer journal written by a clean stop carries the state up
+// to the acknowledged head only as long as it is still valid for the persistent disk state (a
+// buffer flush or a rollback invalidates or removes it); without a valid journal the last
+// persisted state is the disk state itself, and geth legitimately rewinds to that block and
+// drops what is above it.
+func persistedBound(db ethdb.Database, p *Plan, m *Model) uint64 {
+	if p.Scheme != rawdb.PathScheme {
+		return 1 << 62
+	}
+	disk := types.EmptyRootHash
+	if blob := rawdb.ReadAccountTrieNode(db, nil); len(blob) > 0 {
+		disk = crypto.Keccak256Hash(blob)
+	}
+	if j := rawdb.ReadTrieJournal(db); len(j) > 0 {
+		st := rlp.NewStream(bytes.NewReader(j), 0)
+		var (
+			version uint64
+			root    common.Hash
+		)
+		if st.Decode(&version) == nil && st.Decode(&root) == nil && root == disk {
+			return 1 << 62
+		}
+	}
+	var n uint64
+	for i, b := range m.Canon {
+		if b.Root() == disk {
+			n = uint64(i)
+		}
+	}
+	return n
+}
 
 func workloadChild(r *vrt.Run) {
 	root, marksPath, planPath, oplog := os.Getenv("C39_ROOT"), os.Getenv("C39_MARKS"), os.Getenv("C39_PLAN"), os.Getenv("C39_OPLOG")
@@ -298,6 +365,8 @@ type Expect struct {
 	Plan    Plan   `json:"plan"`
 	AckHead uint64 `json:"ack_head"` // head acknowledged by the last clean stop, lowered by later SetHead targets
 	Oplog   string `json:"oplog"`
+	// diagnostics only: the operation in flight at the crash position
+	InFlight string `json:"in_flight,omitempty"`
 }
 
 type Verdict struct {
@@ -340,6 +409,7 @@ func checkState(dir string) (v Verdict) {
 	if err != nil || n != w.KVN {
 		return bad("harness", "oplog: %v", err)
 	}
+	persisted := uint64(1 << 62) // block number of the last persisted state in this crash state (path scheme)
 	defer func() {
 		if pv := recover(); pv != nil {
 			st := string(debug.Stack())
@@ -357,6 +427,20 @@ func checkState(dir string) (v Verdict) {
 			return bad("reopen-error", "rawdb.Open failed: %v", err)
 		}
 		tail, _ := pre.Tail(rawdb.ChainFreezerBlockDataGroup)
+		persisted = persistedBound(pre, p, m)
+		if os.Getenv("C39_DEBUG") != "" {
+			blob := rawdb.ReadAccountTrieNode(pre, nil)
+			fmt.Fprintf(os.Stderr, "DEBUG persistent state id %d, disk trie root %x, snapshot root %x, head block %x\n", rawdb.ReadPersistentStateID(pre), crypto.Keccak256(blob), rawdb.ReadSnapshotRoot(pre), rawdb.ReadHeadBlockHash(pre))
+			for n := uint64(0); n < 40; n++ {
+				h := rawdb.ReadCanonicalHash(pre, n)
+				if h == (common.Hash{}) {
+					break
+				}
+				if hd := rawdb.ReadHeader(pre, h, n); hd != nil {
+					fmt.Fprintf(os.Stderr, "DEBUG canonical %d %x root %x\n", n, h[:4], hd.Root)
+				}
+			}
+		}
 		pre.Close()
 		if tail > 0 {
 			return bad("blockdata-tail-advanced-by-repair", "bodies/receipts below %d hidden by the freezer repair", tail)
@@ -439,21 +523,18 @@ func checkState(dir string) (v Verdict) {
 	if got, want := st.GetBalance(probe).ToBig(), m.Bal[head.Hash()]; want != nil && got.Cmp(want) != 0 {
 		return bad("I2:head-state-wrong", "probe balance at head %d = %v, want %v", v.Head, got, want)
 	}
-	// I3 tx lookups resolve only to canonical blocks containing the tx
+	// I3 transaction lookups, read through the accessor every consumer uses, resolve only to
+	// canonical blocks containing the transaction. A raw lookup entry left behind by SetHead
+	// (core/blockchain.go leaves them, "Todo ... txlookup") whose number was later taken by
+	// another block is stale but harmless: rawdb.ReadCanonicalTransaction validates it against the
+	// canonical body and answers "unknown"; demanding its absence would be stricter than
+	// the property ("a consistent canonical index").
 	for _, blk := range append(append([]*types.Block{}, m.Canon[1:]...), m.Side...) {
 		for _, tx := range blk.Transactions() {
-			if nptr := rawdb.ReadTxLookupEntry(db, tx.Hash()); nptr != nil {
-				cb := rawdb.ReadBlock(db, rawdb.ReadCanonicalHash(db, *nptr), *nptr)
-				found := false
-				if cb != nil {
-					for _, t := range cb.Transactions() {
-						if t.Hash() == tx.Hash() {
-							found = true
-						}
-					}
-				}
-				if !found && *nptr <= v.Head {
-					return bad("I3:lookup-to-non-canonical", "tx lookup of %x points to block %d whose canonical block does not contain it", tx.Hash(), *nptr)
+			if got, bh, bn, idx := rawdb.ReadCanonicalTransaction(db, tx.Hash()); got != nil {
+				cb := rawdb.ReadBlock(db, rawdb.ReadCanonicalHash(db, bn), bn)
+				if got.Hash() != tx.Hash() || cb == nil || cb.Hash() != bh || int(idx) >= len(cb.Transactions()) || cb.Transactions()[idx].Hash() != tx.Hash() {
+					return bad("I3:lookup-to-non-canonical", "ReadCanonicalTransaction(%x) answers block %d %x index %d, which is not the canonical block containing it", tx.Hash(), bn, bh[:4], idx)
 				}
 			}
 		}
@@ -462,7 +543,7 @@ func checkState(dir string) (v Verdict) {
 	// whose state is available (the property asks for "no loss of blocks", not for the head to
 	// stay), so what is demanded is that the block data of every canonical block up to the
 	// head acknowledged by the last clean stop is still there and still canonical-linked.
-	for nn := uint64(1); nn <= e.AckHead; nn++ {
+	for nn := uint64(1); nn <= min(e.AckHead, persisted); nn++ {
 		cb := m.Canon[nn]
 		if rawdb.ReadHeader(db, cb.Hash(), nn) == nil || rawdb.ReadBody(db, cb.Hash(), nn) == nil {
 			fp := "acked-blocks-lost"
@@ -514,6 +595,9 @@ func run(r *vrt.Run) {
 	}
 	nh := r.N(6, 200)
 	vrt.Par(nh, 0, func(hi int) {
+		if only := os.Getenv("C39_ONLY"); only != "" && only != fmt.Sprint(hi) {
+			return
+		}
 		p := genPlan(r, hi)
 		base := filepath.Join(r.Scratch, fmt.Sprintf("h%d", hi))
 		root := filepath.Join(base, "root")
@@ -535,6 +619,10 @@ func run(r *vrt.Run) {
 		spec := &crashrun.Spec{R: r, Hi: hi, Base: base, Root: root, Marks: marks,
 			WorkloadMode: "c39-workload", WorkloadEnv: []string{"C39_ROOT=" + root, "C39_MARKS=" + marks, "C39_PLAN=" + planPath, "C39_OPLOG=" + oplog},
 			ReopenMode: "c39-reopen", ListEnv: "C39_LIST", PosPer: r.N(30, 0), NRandom: r.N(1, 5), Rng: r.Rand("hist", hi)}
+		// the operations that commit tries and rewrite markers in several key-value batches
+		spec.Prefer = func(lastMark, what string) bool {
+			return what == "kvop" && strings.HasPrefix(lastMark, "B ") && (strings.Contains(lastMark, " restart ") || strings.Contains(lastMark, " sethead "))
+		}
 		spec.Build = func(ps crashrun.Pos, cs sysjournal.CrashState, kvn uint64, model string) (any, string) {
 			e := &Expect{Plan: p, Oplog: oplog}
 			inflight := "none"
@@ -549,11 +637,17 @@ func run(r *vrt.Run) {
 				case strings.HasPrefix(mk, "B "):
 					fmt.Sscanf(mk, "B %d %s %d", &i, &kind, &a)
 					inflight = kind
+					e.InFlight = fmt.Sprintf("step %d: %s %d", i, kind, a)
 					if kind == "sethead" && a < e.AckHead {
 						e.AckHead = a
 					}
 				case strings.HasPrefix(mk, "E "):
+					// a completed SetHead whose target state was unavailable rewound further by design
+					if fmt.Sscanf(mk, "E %d %d", &i, &h); inflight == "sethead" && h < e.AckHead {
+						e.AckHead = h
+					}
 					inflight = "none"
+					e.InFlight = fmt.Sprintf("none (after step %d)", i)
 				}
 			}
 			// under power loss only a key-value prefix covering the clean stop keeps its promise;
